@@ -257,9 +257,11 @@ import c18 as _c18
       assumptions=["a process kill cannot observe page-cache loss: durability against power failure (fsync) is out of reach",
                    "kills inside a system call are modelled at byte-prefix granularity of write/writev",
                    "libstdc++ reaches the kernel through fopen64/write/writev/fclose/rename in the PLT (thorough tier cross-checks the write events against strace)"],
-      level='fault_enumeration', exhaustive=True)
+      level='fault_enumeration', exhaustive=False)
 def c18(c):
     _c18.run(c)
+    c.extra['event_positions_enumerated_completely'] = True
+    c.extra['byte_prefixes'] = 'all prefixes for writes <= 4 KiB in the thorough tier; boundary + seeded offsets otherwise'
 
 
 @prop('C05',
